@@ -3,7 +3,7 @@
    ExtrOcamlBasic only. *)
 From Coq Require Import ExtrOcamlBasic List NArith.
 From Coq.Strings Require Import Byte.
-From GM Require Import Codec.Packet Topic.MatchSpec Broker.Backend Broker.BackendSpec.
+From GM Require Import Codec.Packet Topic.MatchSpec Broker.Backend Broker.BackendSpec Broker.BackendC13.
 Extraction Language OCaml.
 Separate Extraction
   Datatypes.length
@@ -12,6 +12,7 @@ Separate Extraction
   Packet.message_eqb Packet.bytes_eqb
   MatchSpec.topic_matches
   Backend.init Backend.step Backend.session_of Backend.get_session Backend.search_retained
-  Backend.queue_of Backend.pick_sub Backend.skey_eqb
+  Backend.queue_of Backend.pick_sub Backend.skey_eqb Backend.classify
   BackendSpec.targets_ok BackendSpec.live_copy_ok BackendSpec.qos_ok BackendSpec.resub_ok BackendSpec.unsub_ok
-  BackendSpec.retained_ok BackendSpec.retained_wf BackendSpec.replay_ok BackendSpec.sessions.
+  BackendSpec.retained_ok BackendSpec.retained_wf BackendSpec.replay_ok BackendSpec.sessions
+  BackendC13.unique_ok BackendC13.handover_ok.
